@@ -732,6 +732,47 @@ def inline_function(idx: PyIndex, fi: FuncInfo, depth: int = 2, keep=None, types
             ast.fix_missing_locations(pre)
             return [pre, st]
 
+        def expand_context_manager(st: ast.With) -> Optional[List[ast.stmt]]:
+            """`with cm(args): BODY` for a @contextmanager generator of the package with exactly one statement-level `yield`: the generator's body with BODY in the
+            place of the yield (the usual shape: `try: yield` + `except E: raise Other(...)`)."""
+            call5 = st.items[0].context_expr
+            h6 = _helper_for0(idx, fi, call5, tenv)
+            if h6 is None or not isinstance(h6.node, ast.FunctionDef) or h6.qualname.split('.')[-1] in keep:
+                return None
+            decs = [d.id if isinstance(d, ast.Name) else (d.attr if isinstance(d, ast.Attribute) else '') for d in h6.node.decorator_list]
+            if 'contextmanager' not in decs:
+                return None
+            yields = [x for x in ast.walk(h6.node) if isinstance(x, (ast.Yield, ast.YieldFrom))]
+            if len(yields) != 1 or not isinstance(yields[0], ast.Yield) or yields[0].value is not None:
+                return None
+            params6 = [a.arg for a in h6.node.args.args]
+            if len(call5.args) != len(params6) or call5.keywords or h6.node.args.vararg or h6.node.args.kwarg or any(isinstance(a, ast.Starred) for a in call5.args):
+                return None
+            if not all(isinstance(a, (ast.Name, ast.Constant)) or (isinstance(a, ast.Attribute) and _is_path(a)) for a in call5.args):
+                return None
+            gen = copy.deepcopy(h6.node)
+            sub6 = _SubstExpr(dict(zip(params6, call5.args)))
+            placed = [False]
+
+            class _Place(ast.NodeTransformer):
+                def visit_Expr(self_, n):
+                    if isinstance(n.value, ast.Yield):
+                        placed[0] = True
+                        return list(st.body)
+                    return n
+            body6 = [b_ for b_ in gen.body if not (isinstance(b_, ast.Expr) and isinstance(b_.value, ast.Constant))]
+            body6 = [sub6.visit(b_) for b_ in body6]
+            out6: List[ast.stmt] = []
+            for b_ in body6:
+                r_ = _Place().visit(b_)
+                out6.extend(r_ if isinstance(r_, list) else [r_])
+            if not placed[0]:
+                return None
+            _touched_modules.add(h6.module)
+            for b_ in out6:
+                ast.fix_missing_locations(b_)
+            return out6
+
         def slot_of(t):
             """(holder, field, call) of the helper call a test evaluates first - when that helper needs statements"""
             holder = fld = None
@@ -760,6 +801,12 @@ def inline_function(idx: PyIndex, fi: FuncInfo, depth: int = 2, keep=None, types
                     if hoisted is not None:
                         changed = True
                         work[0:0] = hoisted
+                        continue
+                if isinstance(st, ast.With) and len(st.items) == 1 and st.items[0].optional_vars is None and isinstance(st.items[0].context_expr, ast.Call):
+                    opened = expand_context_manager(st)
+                    if opened is not None:
+                        changed = True
+                        work[0:0] = opened
                         continue
                 for fld in ('body', 'orelse', 'finalbody'):
                     b = getattr(st, fld, None)
